@@ -5,9 +5,11 @@ use serde_json::Map;
 use crate::{
     callstack::{CallStack, Thread},
     choice::Choice,
+    choice_point::ChoicePoint,
     container::Container,
     json::{json_read, json_write},
     object::RTObject,
+    path::Path,
     story_error::StoryError,
 };
 
@@ -67,6 +69,24 @@ impl Flow {
                 .unwrap(),
         )?;
         let j_choice_threads = j_obj.get("choiceThreads");
+
+        // The save format does not record whether a pending choice is an
+        // invisible default (fallback) choice; recover it from the choice
+        // point the choice was generated from, otherwise a fallback choice
+        // saved next to visible ones is offered to the player after loading.
+        for choice in flow.current_choices.iter_mut() {
+            let source_path = Path::new_with_components_string(Some(&choice.source_path));
+            let is_invisible_default = main_content_container
+                .content_at_path(&source_path, 0, -1)
+                .obj
+                .into_any()
+                .downcast::<ChoicePoint>()
+                .map(|choice_point| choice_point.is_invisible_default())
+                .unwrap_or(false);
+            if is_invisible_default && let Some(choice) = Rc::get_mut(choice) {
+                choice.is_invisible_default = true;
+            }
+        }
 
         flow.load_flow_choice_threads(j_choice_threads, main_content_container)?;
 
